@@ -222,21 +222,29 @@ func main() {
 				style = "knurl"
 			}
 			nh := t.HexHeight()
-			threadLength := nh + 6*p
-			bolt, err := obj.Bolt(&obj.BoltParms{Thread: j.name, Style: style, Tolerance: j.tolB * p, TotalLength: threadLength, ShankLength: 0})
-			if err != nil {
-				c.Violation("obj.Bolt|error", fmt.Sprintf("%s: %v", j.name, err), desc)
-				return
-			}
 			nut, err := obj.Nut(&obj.NutParms{Thread: j.name, Style: style, Tolerance: j.tolN * p})
 			if err != nil {
 				c.Violation("obj.Nut|error", fmt.Sprintf("%s: %v", j.name, err), desc)
 				return
 			}
+			// the whole height of the nut as built (its bounding box), not the nominal height: a nut body taller than
+			// its threaded hole keeps a plug of material in the way of the bolt (round 8)
+			nb := nut.BoundingBox()
+			H := 2 * math.Max(math.Abs(nb.Min.Z), math.Abs(nb.Max.Z))
+			if !(H >= nh*0.5) || H > 10*nh {
+				c.Violation("obj.Nut|height", fmt.Sprintf("%s: nut bounding box %v against a nominal height of %g", j.name, nb, nh), desc)
+				return
+			}
+			threadLength := math.Max(nh, H) + 6*p
+			bolt, err := obj.Bolt(&obj.BoltParms{Thread: j.name, Style: style, Tolerance: j.tolB * p, TotalLength: threadLength, ShankLength: 0})
+			if err != nil {
+				c.Violation("obj.Bolt|error", fmt.Sprintf("%s: %v", j.name, err), desc)
+				return
+			}
 			// the nut sits on the middle of the bolt's threaded part (bolt thread: from the shank at hh/2
 			// upward, its screw centred at hh/2 + threadLength/2), where both screws have the same phase
 			z0 := nh/2 + threadLength/2
-			zmax := math.Min(0.8*nh/2, threadLength/2-p)
+			zmax := math.Min(0.98*H/2, threadLength/2-p)
 			tol := 1e-9 * (r + p)
 			cls := "untapered"
 			if t.Taper != 0 {
